@@ -10,7 +10,10 @@
 // per-case persistent bijection between node objects and model node ids.
 //
 // Monitors: the clauses of the three property texts, checked on the implementation against a
-// sorted slice (see monitors.go).
+// sorted slice (see monitors.go). The three properties are judged independently (Exec keeps the first
+// failure of each), every failure is shrunk on its own; every 16th op and at the end of every case
+// the C01 monitor compares the complete Iterate / Range / RangeReverse results, Len, First and Last
+// with the reference.
 //
 // Cases are independent (each has its own forked PRNG), so they are generated and checked by a few
 // workers, each with its own model process; outcomes are merged in case order.
@@ -127,15 +130,11 @@ type verdict struct {
 
 // check evaluates one executed case: monitor verdict (shrunk), then correspondence (shrunk).
 func check(lines []string, ex *Exec, m *vlib.Model) (v verdict) {
-	if ex.fail != nil {
-		k := ex.fail.kind
-		small := shrinkLines(lines, func(c []string) bool {
-			e := runLines(c, true)
-			return e.fail != nil && e.fail.kind == k
-		})
-		f := ex.fail
-		if e := runLines(small, true); e.fail != nil && e.fail.kind == k {
-			f = e.fail
+	for _, f0 := range ex.fails { // at most one per property (c01 / c02 / c03), each shrunk on its own
+		k, f := f0.kind, f0
+		small := shrinkLines(lines, func(c []string) bool { return runOnly(c, prop(k)).hasKind(k) != nil })
+		if g := runLines(small, true).hasKind(k); g != nil {
+			f = g
 		} else {
 			small = lines
 		}
@@ -181,10 +180,22 @@ type acct struct {
 	nops               int
 	st                 stats
 	sample             interface{}
+	sweeps, sweepsBig  int
+	bigFills           []string // fill patterns beyond bigFillKeys keys that were followed by a full sweep
+	bigFillsNoSweep    []string
 }
 
-func summarize(ex *Exec, mode string, lines []string) acct {
-	a := acct{mode: mode, variant: ex.v.Name(), key: caseKey(lines), nops: ex.nops, st: ex.st}
+func summarize(ex *Exec, mode string, lines []string, bigFills map[string]int) acct {
+	a := acct{mode: mode, variant: ex.v.Name(), key: caseKey(lines), nops: ex.nops, st: ex.st, sweeps: ex.sweeps, sweepsBig: ex.sweepsBig}
+	for _, p := range patternName {
+		if at, ok := bigFills[p]; ok {
+			if ex.lastSweepOp >= at {
+				a.bigFills = append(a.bigFills, p)
+			} else {
+				a.bigFillsNoSweep = append(a.bigFillsNoSweep, p)
+			}
+		}
+	}
 	if len(lines) <= 60 {
 		a.sample = lines
 	}
@@ -212,6 +223,14 @@ func (a *acct) apply(res *vlib.Result) {
 	res.CountN("ev-cascade3", st.casc3)
 	res.CountN("ev-root-collapse", st.rootCollapse)
 	res.CountN("c02-mutation-at-parked-node", st.parkedNodeMut)
+	res.CountN("c01-full-sweeps", a.sweeps)
+	res.CountN("c01-full-sweeps->136-keys", a.sweepsBig)
+	for _, p := range a.bigFills {
+		res.Count("c01-fill->136-" + p + "-then-full-iteration")
+	}
+	for _, p := range a.bigFillsNoSweep {
+		res.Count("c01-fill->136-" + p + "-without-full-iteration")
+	}
 	res.Count(fmt.Sprintf("levels-%d", st.levelsMax))
 	res.Count(fmt.Sprintf("iters-live-max-%d", st.itersLiveMax))
 	bucket := ">2048"
@@ -262,7 +281,7 @@ func worker(driver string, selfcheck bool, jobs <-chan job, out chan<- outcome) 
 		var g *Gen
 		if p, val := vlib.Try(func() {
 			j.make(&g)
-			a := summarize(g.ex, g.mode, g.lines)
+			a := summarize(g.ex, g.mode, g.lines, g.bigFills)
 			o.acct = &a
 			v := check(g.lines, g.ex, m)
 			if v.modelErr == "" {
@@ -271,7 +290,7 @@ func worker(driver string, selfcheck bool, jobs <-chan job, out chan<- outcome) 
 			o.v = v
 			if selfcheck {
 				e2 := runLines(g.lines, true)
-				o.mismatch = e2.sum != g.ex.sum || (e2.fail == nil) != (g.ex.fail == nil)
+				o.mismatch = e2.sum != g.ex.sum || len(e2.fails) != len(g.ex.fails)
 			}
 		}); p {
 			var ls []string
@@ -438,9 +457,10 @@ func replay(env vlib.Env) {
 		os.Exit(2)
 	}
 	fmt.Printf("replay of %d lines\n", len(ls))
-	if ex.fail != nil {
-		fmt.Printf("monitor: %s %s\n", ex.fail.kind, ex.fail.what)
-	} else {
+	for _, f := range ex.fails {
+		fmt.Printf("monitor: %s %s\n", f.kind, f.what)
+	}
+	if len(ex.fails) == 0 {
 		fmt.Println("monitor: no clause violated")
 	}
 	if m, err := vlib.StartModel(env.Driver, "tree"); err == nil {
@@ -453,7 +473,7 @@ func replay(env vlib.Env) {
 			fmt.Println("correspondence: model and implementation agree")
 		}
 	}
-	if ex.fail != nil {
+	if len(ex.fails) > 0 {
 		os.Exit(1)
 	}
 }
@@ -466,9 +486,9 @@ func main() {
 		return
 	}
 	res := vlib.NewResult("C01", "protocol histories on tree.Map/tree.Set in 24 variants (Map/Set x less/cmp x natural/reversed/coarse comparator x int/*int); "+
-		"modes: boundary fills (15,16,127,128,255,256,2047,2048 +-1; ascending/descending/sawtooth/random), random op mixes around a target size, "+
+		"modes: boundary fills (15,16,127,128,255,256,2047,2048 +-1; ascending/descending/sawtooth/random; every fill beyond 136 keys is followed by Range and RangeReverse over everything), random op mixes around a target size, "+
 		"targeted drains steered by the hook dump (steal-left/right, merge-left/right, separators, cascades, root collapse), C02 scripts (up to 4 live "+
-		"iterators, mutations aimed at the parked key and its node), malformed calls, plus the corpus. A case is non-trivial if it has >= 10 ops and "+
+		"iterators, mutations aimed at the parked key and its node), malformed calls, plus the corpus; every 16th op and at the end of a case the complete Iterate/Range/RangeReverse results, Len, First and Last are compared with the reference. A case is non-trivial if it has >= 10 ops and "+
 		"(reaches >= 2 tree levels or has a live iterator that saw a mutation between two Next calls); distinct = different line list. "+
 		"thorough adds an exhaustive C02 part: fixed 200-key 3-level tree x every sampled parking position x 2 directions x 6 mutations x 3 further Next")
 	if _, err := os.Stat(env.Driver); env.Driver == "" || err != nil {
@@ -496,7 +516,7 @@ func main() {
 	if thorough {
 		maxCases = 400000
 	}
-	for i := 0; i < maxCases && (i < 3 || time.Now().Before(deadline)); i++ { // the steering cases always run
+	for i := 0; i < maxCases && (i < steerCases || time.Now().Before(deadline)); i++ { // the steering cases always run
 		fr, i := r.Fork(), i
 		p.jobs <- job{idx: idx, make: func(slot **Gen) { genCase(fr, i, thorough, slot) }}
 		idx++
